@@ -324,6 +324,26 @@ class _SimReadFile:
         return False
 
 
+class _SimTextReadFile(_SimReadFile):
+    """text-mode view: lines are decoded as they are read, so a bad byte raises when it is reached"""
+
+    def __init__(self, fs, path, data, fail_after, encoding):
+        super().__init__(fs, path, data, fail_after)
+        self.encoding = encoding or "utf-8"
+
+    def readline(self):
+        return super().readline().decode(self.encoding)
+
+    def read(self, n=-1):
+        return super().read(-1).decode(self.encoding)
+
+    def __next__(self):
+        line = super().readline()
+        if not line:
+            raise StopIteration
+        return line.decode(self.encoding)
+
+
 class _SimWriteFile:
     def __init__(self, fs, path, fail_after, err):
         self.fs = fs
@@ -415,8 +435,8 @@ class SimFS:
             self.armed = None
             self._fired("open_error")
             raise OSError(arm["errno"], _os.strerror(arm["errno"]), path)
-        if "b" not in mode:
-            raise ValueError("SimFS: text mode not modelled")
+        if "b" not in mode and not mode.startswith("r"):
+            raise ValueError("SimFS: text-mode writing not modelled")
         if mode.startswith("r"):
             if path not in self.files:
                 raise FileNotFoundError(_errno.ENOENT, "No such file or directory", path)
@@ -424,6 +444,8 @@ class SimFS:
             if arm and arm["kind"] == "read_error":
                 self.armed = None
                 fail_after = arm["after"] % (len(self.files[path]) + 1)
+            if "b" not in mode:
+                return _SimTextReadFile(self, path, self.files[path], fail_after, k.get("encoding"))
             return _SimReadFile(self, path, self.files[path], fail_after)
         if mode.startswith("w"):
             fail_after = None
